@@ -385,6 +385,57 @@ def with_extmon(rnd, scs, share=0.35, tcp=0.3):
     return scs
 
 
+def gen_c03_live(rnd, tier):
+    """subscriptions observed through sockets: subscribers that subscribe / unsubscribe (plain and pattern, unique
+    or not, live-only or with the current state, overlapping) while writers set, cset, delete and pdelete; every
+    stream is flushed by a marker and must be exactly what the specification delivers, in order"""
+    out = []
+    keys = [["a"], ["a", "b"], ["a", "c"], ["b"]]
+    pats = [["a", "#"], ["a", "?"], ["#"], ["?"], ["a", "b"]]
+    for _ in range(16 if tier == "quick" else 300):
+        sessions = {}
+        rounds = rnd.randint(2, 4)
+        for i in range(rnd.randint(1, 2)):
+            name = "c%d" % (i + 1)
+            items, t, subs = [], 0, []
+            for rd in range(rounds):
+                items.append({"op": "barrier", "n": rd})
+                for _k in range(rnd.randint(1, 2)):
+                    t += 1
+                    r = rnd.random()
+                    if r < 0.4:
+                        subs.append(t)
+                        items.append({"op": "sub", "c": name, "key": rnd.choice(keys), "unique": rnd.random() < 0.5, "live": rnd.random() < 0.5, "tid": t, "wait": True})
+                    elif r < 0.8:
+                        subs.append(t)
+                        items.append({"op": "psub", "c": name, "pat": rnd.choice(pats), "unique": rnd.random() < 0.5, "live": rnd.random() < 0.5, "tid": t, "wait": True})
+                    elif subs:
+                        items.append({"op": "unsub", "c": name, "tid": subs.pop(rnd.randrange(len(subs))), "wait": True})
+            items.append({"op": "barrier", "n": rounds})
+            sessions[name] = items
+        for w in ("c8", "c9"):
+            items, t = [], 0
+            for rd in range(rounds):
+                items.append({"op": "barrier", "n": rd})
+                for _k in range(rnd.randint(1, 4)):
+                    t += 1
+                    k = rnd.choice(keys)
+                    r = rnd.random()
+                    if r < 0.5:
+                        items.append({"op": "set", "c": w, "key": k, "val": rnd.choice(["x", "x", "y", "%s.%d" % (w, t)]), "tid": t})
+                    elif r < 0.65:
+                        items.append({"op": "cset", "c": w, "key": ["n"] + k, "val": "%s.%d" % (w, t), "ver": rnd.choice([0, 1, 2]), "tid": t})
+                    elif r < 0.85:
+                        items.append({"op": "delete", "c": w, "key": k, "tid": t})
+                    else:
+                        items.append({"op": "pdelete", "c": w, "pat": rnd.choice(pats), "tid": t})
+                items[-1]["wait"] = True
+            items.append({"op": "barrier", "n": rounds})
+            sessions[w] = items
+        out.append({"sessions": sessions})
+    return with_extmon(rnd, out, share=0.25)
+
+
 def gen_c16_live(rnd, tier):
     """aggregated pattern subscriptions on live sessions: one or two subscribers (aggregated, and plain for
     comparison by the same specification), two writers that burst sets (values repeat) and deletes"""
